@@ -94,6 +94,26 @@ def families(tier):
         for order in (names, names[::-1]):
             out.append(dict(prop='C08', family='c08.multi_dispatch', id=f'c08/multi-{nb}-{quiet}-{who}-p{int(par)}-o{"".join(order)}', cfg=cfg, params=dict(shape='multi', awaiter=who),
                             scn=dict(buses={b: dict(parallel=par) for b in names}, order=order, handlers=hs, main=main, actors=[], forwards=[], settle=3.0)))
+    # an event comes back to a bus that is already in its path (plain-function 'back bridge' forwarder, or re-dispatch by hand) while another bus still has it queued
+    for back, slowB, fwd_first, redisp in itertools.product(('handler', 'none'), (False, True), (False, True), ('none', 'main_pending', 'main_after_pause')):
+        if back == 'none' and redisp == 'none':
+            continue
+        names = ['A', 'B', 'C']
+        hs = [dict(bus='A', pat='P', name='hpA', prog=[('ret', 'A')])]
+        if back == 'handler':
+            hs.append(dict(bus='B', pat='P', name='backBA', prog=[('redisp', 'A', 'self')], kind='sync'))
+        hs.append(dict(bus='B', pat='P', name='hpB', prog=[('pause',), ('ret', 'B')] if slowB else [('ret', 'B')]))
+        hs.append(dict(bus='C', pat='P', name='hpC', prog=[('pause',), ('ret', 'C')]))
+        hs.append(dict(bus='C', pat='X', name='hxC', prog=[('pause',), ('pause',)]))  # unrelated work that outlasts P
+        main = [('disp', 'C', 'X', 'ff'), ('disp', 'A', 'P', 'late')]
+        if redisp == 'main_pending':
+            main.append(('redisp', 'A', 'P'))
+        elif redisp == 'main_after_pause':
+            main += [('pause',), ('redisp', 'A', 'P'), ('redisp', 'B', 'P')]
+        main += [('await', 'P'), ('pause',)]
+        for order in (names, names[::-1]):
+            out.append(dict(prop='C08', family='c08.back_to_a_bus_in_path', id=f'c08/back-{back}-s{int(slowB)}-f{int(fwd_first)}-{redisp}-o{"".join(order)}', cfg=cfg, params=dict(shape='back', awaiter='main'),
+                            scn=dict(buses={b: {} for b in names}, order=order, handlers=hs, main=main, actors=[], forwards=[('A', 'B'), ('B', 'C')], fwd_first=fwd_first, settle=3.0)))
     # parent handler times out while an awaited child with TWO concurrently running handlers (parallel_handlers bus) is processed inline
     for cb, tc in itertools.product('AB', (None, 1.0)):
         names = ['A', 'B'] if cb == 'B' else ['A']
